@@ -115,10 +115,24 @@ def random_definition(rng, name, forced_accept=True, looks=True, multibyte=True,
     return '\n'.join(header) + '\npub enum %s {\n%s\n}\n' % (name, '\n'.join(variants))
 
 
+def tie_rich_definition(rng, name):
+    """Overlapping classes with explicit priorities drawn from a tiny set: many ties, adjacent and not."""
+    n = rng.randint(3, 6)
+    vs = []
+    for i in range(n):
+        a, b = sorted(rng.sample('abcdefgh', 2))
+        pat = rng.choice(['[%s-%s]+' % (a, b), '[%s-%s][0-9a-z]?' % (a, b), '[%s-%s]{1,2}' % (a, b), '%s[a-z]*' % a])
+        vs.append('    #[regex("%s", priority = %d)] V%d,' % (pat, rng.choice([1, 2, 2, 3, 3]), i))
+    return '#[derive(Logos, Debug, PartialEq, Clone)]\npub enum %s {\n%s\n}\n' % (name, '\n'.join(vs))
+
+
 def random_corpus(seed, count, prefix='R', **kw):
     rng = random.Random(seed)
     out = []
     for i in range(count):
+        if rng.random() < 0.12:
+            out.append(tie_rich_definition(rng, '%s%d' % (prefix, i)))
+            continue
         forced = rng.random() < 0.6
         out.append(random_definition(rng, '%s%d' % (prefix, i), forced_accept=forced,
                                      looks=rng.random() < 0.6, bytes_mode=kw.get('bytes_mode', False) or rng.random() < 0.1))
